@@ -7,9 +7,9 @@ ids=$(python3 -c "import json; print(' '.join(c['property_id'] for c in json.loa
 bad=0
 for s in $seeds; do
   for id in $ids; do
-    out=$(VERIF_SEED=$s ./check $id --tier $tier 2>&1); rc=$?
+    t0=$(date +%s); out=$(VERIF_SEED=$s timeout 3000 ./check $id --tier $tier 2>&1); rc=$?; t1=$(date +%s)
     if [ $rc -ne 0 ]; then bad=1; echo "ALARM seed=$s $id exit=$rc"; echo "$out" | grep -m3 "VIOLATION\|MACHINERY\|Error" ; fi
-    echo "$out" | tail -1
+    echo "$out" | tail -1; echo "   ($id took $((t1-t0))s)"
   done
 done
 echo "sweep done bad=$bad"
